@@ -372,7 +372,7 @@ impl<'a, Msg> Iterator for NetworkIter<'a, Msg> {
             }),
             NetworkIter::UnorderedNonDuplicating(active, it) => {
                 if let Some((env, count)) = active {
-                    // invariant: count > 1
+                    // invariant: count > 0 (copies still to be yielded)
                     let env = *env; // to avoid holding a reference inside active
                     *count -= 1;
                     if *count == 0 {
@@ -387,7 +387,8 @@ impl<'a, Msg> Iterator for NetworkIter<'a, Msg> {
                         msg: &env.msg,
                     };
                     if *count > 1 {
-                        *active = Some((env, *count));
+                        // this call yields the first copy: count - 1 are left
+                        *active = Some((env, *count - 1));
                     }
                     env
                 })
